@@ -406,8 +406,8 @@ pub fn run(run: &mut Run) {
     run.rule = "pairs of generated samples (f32/f64, sizes 2..2000 equal and unequal, independent scales giving variance ratios up to 2^±60, occasionally one constant sample) x confidences x 5 paired / 8 unpaired feeding styles; all length pairs (0..6)^2 for the DifferentSampleSizes rule; non-trivial = non-constant differences (paired), both samples non-constant, inside the conditioning domain and tolerance < 0.1 % of the half-width (unpaired)".into();
     crate::meanref::selftest_into(run);
     let (cases, shards, max_n) = match run.tier {
-        crate::engine::Tier::Quick => (12_000u32, 16usize, 1000usize),
-        crate::engine::Tier::Thorough => (240_000, 64, 5000),
+        crate::engine::Tier::Quick => (60_000u32, 32usize, 1000usize),
+        crate::engine::Tier::Thorough => (2_400_000, 256, 5000),
     };
     let seed = run.seed_for("random", 0);
     run.par(shards, |shard, obs| {
